@@ -38,10 +38,37 @@ EXTRA = [
 ]
 
 
+# programs with imports: library files written to a scratch directory of this process; two libraries share a
+# base name, one program imports one of them alone, another imports both (prefixes depend on the importing program)
+LIB_FILES = {'north/util.l': 'Items(x) :- x in [1, 2];\nHelper(x) :- Items(x), x > 1;\n',
+             'south/util.l': 'Things(x) :- x in [10];\nHelper(x) :- Things(x);\n',
+             'deep/chain.l': 'import north.util.Helper;\nChain(x + 1) :- Helper(x);\n'}
+IMPORTING = [
+  ('imp_north_only', '@Engine("sqlite");\nimport north.util.Items;\nQ(x) :- Items(x);', ['Q']),
+  ('imp_south_then_north', '@Engine("sqlite");\nimport south.util.Things;\nimport north.util.Items;\nQ(x) :- Things(x) | Items(x);', ['Q']),
+  ('imp_north_then_south', '@Engine("sqlite");\nimport north.util.Helper;\nimport south.util.Helper as H2;\nQ(x) :- Helper(x) | H2(x);', ['Q']),
+  ('imp_chain', '@Engine("sqlite");\nimport deep.chain.Chain;\nimport south.util.Helper;\nQ(x) :- Chain(x) | Helper(x);', ['Q']),
+]
+_LIB_ROOT = []
+
+
+def lib_root():
+  if not _LIB_ROOT:
+    import atexit, shutil, tempfile
+    d = tempfile.mkdtemp(prefix='verif_c13_')
+    atexit.register(shutil.rmtree, d, True)
+    for rel, text in LIB_FILES.items():
+      os.makedirs(os.path.dirname(os.path.join(d, rel)), exist_ok=True)
+      open(os.path.join(d, rel), 'w').write(text)
+    _LIB_ROOT.append(d)
+  return _LIB_ROOT[0]
+
+
 def programs():
   from vlib import lgen
   ps = [(s['name'], s['text'], list(s['spec']), s.get('flags')) for s in lgen.ALL]
   ps += [(n, t, p, None) for (n, t, p) in EXTRA]
+  ps += [(n, t, p, None) for (n, t, p) in IMPORTING]
   return ps
 
 
@@ -51,7 +78,7 @@ def digest(text, preds, flags, rules=None):
   h = hashlib.sha256()
   try:
     if rules is None:
-      rules = parse.ParseFile(text)['rule']
+      rules = parse.ParseFile(text, import_root=lib_root())['rule'] if '\nimport ' in text else parse.ParseFile(text)['rule']
     prog = universe.LogicaProgram(rules, user_flags=flags or {})
     for p in preds:
       sql = prog.FormattedPredicateSql(p)
@@ -87,7 +114,7 @@ def main():
     out = {}
     for name, text, preds, flags in ps:
       try:
-        rules = parse.ParseFile(text)['rule']
+        rules = parse.ParseFile(text, import_root=lib_root())['rule'] if '\nimport ' in text else parse.ParseFile(text)['rule']
       except Exception:
         continue
       snapshot = copy.deepcopy(rules)
